@@ -24,7 +24,7 @@ for id in "$@"; do
   ( flock 9; rm -f $CARGO_TARGET_DIR/verif/$pkg $B/$pkg.bin; cargo build --offline --profile verif -p $pkg $feat 2>&1 | grep -E "^error" -A 6 | head -20
     cp $CARGO_TARGET_DIR/verif/$pkg $B/$pkg.bin ) 9>/verif/harness/.seedrun.lock
   [ -x $B/$pkg.bin ] || { echo "$id BUILD FAILED (no verdict)"; continue; }
-  rc=0; out=$($B/$pkg.bin $id quick 2>&1) || rc=$?
+  rc=0; out=$($B/$pkg.bin $id ${SEED_TIER:-quick} 2>&1) || rc=$?
   echo "$id rc=$rc :: $(echo "$out" | grep -E 'done:|MACHINERY' | tail -1 | cut -c1-150)"
   echo "$out" | grep -E "what:" | head -2 | cut -c1-400
 done
